@@ -122,6 +122,9 @@ func (s *Struct) Assign(gen Generator, ctx *MethodContext, assignTo *AssignTo, s
 					TargetID:   targetField.Name(),
 					TargetType: targetFieldType.String,
 				})
+				if fieldMapping.Source != "" && fieldMapping.Source != "." {
+					return nil, NewError(fmt.Sprintf("The function %s has no source parameter, the source %q of the mapping would be ignored.", def.ID, fieldMapping.Source)).Lift(sourceLift...)
+				}
 			}
 
 			callStmt, callReturnID, err := gen.CallMethod(ctx, fieldMapping.Function, functionCallSourceID, functionCallSourceType, targetFieldType, targetFieldPath)
